@@ -50,7 +50,9 @@ operator delete(void *p, std::size_t, std::align_val_t a) noexcept
 
 namespace
 {
-constexpr int kHelpers = DBGROUP_MAX_THREAD_NUM - 1;
+// one helper per remaining ID for the small capacities; the large-capacity variant (IDs >= 32 and >= 64 come from
+// hash(thread id) % capacity) uses a handful of helpers
+constexpr int kHelpers = DBGROUP_MAX_THREAD_NUM - 1 < 7 ? DBGROUP_MAX_THREAD_NUM - 1 : 7;
 
 // a helper OS thread that executes closures one at a time
 class Helper
